@@ -93,7 +93,8 @@ Definition aload (st : astore) (r : mref S) : option amat :=
   match r with
   | MInline m => if inline_valid m then Some (Z.to_nat (im_size m), cells_of_inline m) else None
   | MStored id => st id
-  | MOther => None
+  | MObject o => option_map (fun p => (fst p, rev (map (fun e : nat * nat * T S => ((fst (fst e), snd (fst e)), snd e))
+                                                     (filter (fun e : nat * nat * T S => nz (snd e)) (snd p))))) o
   end.
 Definition aset (st : astore) (id : nat) (m : option amat) : astore := fun k => if k =? id then m else st k.
 
